@@ -921,6 +921,7 @@ def install_ebpfcat(seams, ebpfcat_mod=True, lock_mod=True):
     if ebpfcat_mod:
         import ebpfcat.ebpfcat as m
         seams.set(m, "os", osf)
+        seams.set(m, "fcntl", fc)     # not imported today; for repairs
         seams.set(m, "shutil", ShutilFacade())
         seams.set(m, "tempfile", TempfileFacade())
         seams.set(m, "open", sim_open)
@@ -981,7 +982,7 @@ class Run:
     switch at all.  Control returns to the caller of ``play`` when the script
     is used up."""
 
-    def __init__(self, world, bodies, params=None):
+    def __init__(self, world, bodies, params=None, symmetric=False):
         self.world = world
         self.procs = [Proc(i, b) for i, b in enumerate(bodies)]
         self.ctl = threading.Semaphore(0)
@@ -990,6 +991,10 @@ class Run:
         self.nsteps = 0
         self.bug = None
         self.params = params or {}
+        # all bodies identical: only schedules in which the processes take
+        # their first step in pid order are kept (every other schedule is
+        # such a schedule with the processes renamed)
+        self.symmetric = symmetric
         self.started = False
         self.finished = False
         self.script = []
@@ -1101,6 +1106,15 @@ class Run:
         tried.append(v)
         self._record(p, "choose", (name,), v)
         return v
+
+    def restart_process(self):
+        """the current process exits (descriptors closed, locks dropped);
+        what the body does afterwards is a new process with the same id"""
+        p = self.procs[self.pid()]
+        self.syscall("exit", ("restart",),
+                     lambda: self.world.exit_process(p.pid))
+        p.tried.clear()
+        p.flags.clear()
 
     def flag(self, k, v):
         p = self.procs[self.pid()]
@@ -1218,7 +1232,18 @@ class Run:
         loc = [p for p in ps if p.options is not None]
         if loc:
             return loc[:1]
-        return [p for p in ps if p.enabled is None or p.enabled()]
+        ps = [p for p in ps if p.enabled is None or p.enabled()]
+        if self.symmetric:
+            ps = [p for p in ps if p.nops > 0 or self._may_start(p)]
+        return ps
+
+    def _may_start(self, p):
+        if p.pid == 0:
+            return True
+        prev = self.procs[p.pid - 1]
+        if prev.nops > 0 or prev.status != "parked":
+            return True
+        return prev.enabled is not None and not prev.enabled()
 
     def choices(self, crash=False):
         out = []
@@ -1228,7 +1253,8 @@ class Run:
             else:
                 out.append((p.pid, STEP))
         if crash and not any(p.options is not None for p in self.parked()):
-            out.extend((p.pid, CRASH) for p in self.parked())
+            out.extend((p.pid, CRASH) for p in self.parked()
+                       if p.nops > 0 or not self.symmetric)
         return out
 
     def terminal(self):
@@ -1306,6 +1332,7 @@ def _observe(space, run):
         key=run.key(),
         enabled=run.choices(),
         alive=[p.pid for p in ps],
+        crashable=[c[0] for c in run.choices(crash=True) if c[1] == CRASH],
         local=any(p.options is not None for p in ps),
         enabled_pids=[p.pid for p in en],
         ncrashed=sum(1 for p in run.procs if p.status == "crashed"),
@@ -1375,7 +1402,7 @@ def _allowed(space, obs, cur, used):
         if space.preempt is None or used + cost <= space.preempt:
             out.append((tuple(c), cost))
     if obs["ncrashed"] < space.crashes and not obs["local"]:
-        out.extend(((pid, CRASH), 0) for pid in obs["alive"])
+        out.extend(((pid, CRASH), 0) for pid in obs["crashable"])
     return out
 
 
@@ -1462,6 +1489,11 @@ def _level(ctx, space, res, stats, states, frontier, expand, bounded,
     succ = r.cov.pop("succ", [])
     stats["transitions"] += r.cov.pop("transitions", 0)
     res.merge(r)
+    if _os.environ.get("SIMOS_DEBUG"):
+        import sys
+        print(f"[simos] {space.name} level {stats['levels']}: frontier "
+              f"{len(frontier)}, successors {len(succ)}, states "
+              f"{len(states)}", file=sys.stderr, flush=True)
     nxt = {}
     for key, cur, used, prefix, obs in succ:
         dk = (key, cur) if bounded else key
